@@ -1,6 +1,7 @@
 package main
 
 import (
+	"sync"
 	"regexp"
 	"encoding/json"
 	"fmt"
@@ -206,6 +207,45 @@ func runCheck(p *vc.Program, prop, tier string) int {
 		}
 	}
 
+	// thorough tier: every obligation discharged by one solver is put to a second,
+	// independent solver (cvc5 for z3 answers, z3 5.1 for cvc5 answers); agreement is
+	// counted, a contradicting "sat" is reported as a violation (solver disagreement)
+	crossAgreed, crossUnknown := 0, 0
+	crossDisagree := []string{}
+	if tier == "thorough" {
+		type job struct{ i int }
+		sem := make(chan struct{}, *jobs)
+		var mu sync.Mutex
+		var wg sync.WaitGroup
+		for i, r := range results {
+			if r.Ob.Cover || r.Ans.Status != solve.Unsat {
+				continue
+			}
+			second := "cvc5"
+			if r.Ans.Solver == "cvc5" {
+				second = "z3-new"
+			}
+			wg.Add(1)
+			sem <- struct{}{}
+			go func(i int, ob *vc.Obligation, second string) {
+				defer wg.Done()
+				defer func() { <-sem }()
+				st, _ := solve.CheckWith(dir, ob.Name, ob.Script, second, 30)
+				mu.Lock()
+				defer mu.Unlock()
+				switch st {
+				case solve.Unsat:
+					crossAgreed++
+				case solve.Sat:
+					crossDisagree = append(crossDisagree, ob.Name+" ("+results[i].Ans.Solver+": unsat, "+second+": sat)")
+				default:
+					crossUnknown++
+				}
+			}(i, r.Ob, second)
+		}
+		wg.Wait()
+	}
+
 	// classify
 	var violations []string
 	var knownLines []string
@@ -317,6 +357,14 @@ func runCheck(p *vc.Program, prop, tier string) int {
 			violations = append(violations, fmt.Sprintf("VIOLATION property=%s replay=%s obligation=%s no-failing-input-found", prop, rp, name))
 		}
 	}
+	for _, dsg := range crossDisagree {
+		os.MkdirAll(replayDir, 0o755)
+		name := strings.SplitN(dsg, " ", 2)[0]
+		rp := filepath.Join(replayDir, sanitizeName(name)+".disagree.txt")
+		os.WriteFile(rp, []byte("property: "+prop+"\nobligation: "+name+"\nTwo solvers disagree on this obligation: "+dsg+"\nOne of them is wrong; the obligation is not counted as discharged.\n"), 0o644)
+		violations = append(violations, fmt.Sprintf("VIOLATION property=%s replay=%s obligation=%s (solver disagreement) no-failing-input-found", prop, rp, name))
+		discharged--
+	}
 	// ledger obligations that vanished from a unit that still translates: informational
 	vanished := []string{}
 	if led != nil {
@@ -395,6 +443,9 @@ func runCheck(p *vc.Program, prop, tier string) int {
 		"ledger_obligations_absent_now": len(vanished),
 		"samples":                  samples,
 		"slow_obligations_5s":      slowList,
+		"second_solver_agreed":     crossAgreed,
+		"second_solver_undecided":  crossUnknown,
+		"second_solver_disagreed":  crossDisagree,
 		"exhaustive":               false,
 	}
 	ev := evidence{PropertyID: prop, Tier: tier, Seed: seed, Level: "proof", Coverage: cov, Assumptions: assumptions,
